@@ -45,12 +45,46 @@ def unl : Pc → Nid → Bool
   | .rSetNext x _ _, m => decide (m = x)
   | _, _ => false
 
+/-- the consumer has taken `m` out of the list structure (retired stub, removed node) and still has to drop the list's
+    reference on it -/
+def lrC : Pc → Nid → Bool
+  | .cTake o _ _, m => decide (m = o)
+  | .cDec o _ _, m => decide (m = o)
+  | .rTake x, m => decide (m = x)
+  | .rDec x _, m => decide (m = x)
+  | _, _ => false
+
+/-- the consumer is inside a queue operation (anything but `remove` and the handle operations) -/
+def qop : Pc → Bool
+  | .oHead _ | .oAnd _ | .oNext _ | .iHead _ | .iNext _ | .iAnd _ | .cPrev .. | .cTail .. | .cTake .. | .cDec ..
+  | .qAnd | .qDec | .kHead | .kNext | .eHead => true
+  | _ => false
+
+/-- inside a push (from the call to the return) -/
+def isPushAny : Pc → Bool
+  | .pSwap _ | .pPrev .. | .pLink .. | .pTail .. => true
+  | _ => false
+
+/-- the consumer is inside `Queue::drop` -/
+def inDrop : Pc → Bool
+  | .oHead k | .oAnd k | .oNext k | .cPrev _ k | .cTail _ k | .cTake _ _ k | .cDec _ _ k => k
+  | .qAnd | .qDec => true
+  | _ => false
+
+/-- the consumer has cleared the link bit of the stub on the way to retiring it -/
+def andDone : Pc → Bool
+  | .oNext _ | .cPrev .. | .cTail .. | .qDec => true
+  | _ => false
+
 structure Inv (s : St) : Prop where
+  -- this is the fixed `Queue::drop`
+  hF : s.sh.fix = true
   -- identifiers
   hN : s.sh.nid = s.sh.head + 1
   hT : 1 ≤ s.sh.tail ∧ s.sh.tail ≤ s.sh.head
   hV : ∀ m, s.sh.nid ≤ m → s.sh.prev m = 0 ∧ s.sh.next m = 0 ∧ s.sh.val m = none ∧ s.sh.lnk m = false ∧ s.sh.st m = .none ∧
         s.sh.lk m = false ∧ s.sh.rd m = false ∧ s.sh.hnd m = false
+  hW : ∀ m, s.sh.nid ≤ m → s.sh.lr m = false ∧ s.sh.hr m = false ∧ s.sh.hin m = false ∧ s.sh.freed m = false ∧ s.sh.rc m = 0
   hM : ∀ m, s.sh.st m = .member → s.sh.tail < m ∧ m < s.sh.nid
   hP : ∀ m, s.sh.st m = .popped → m ≤ s.sh.tail ∧ 2 ≤ m
   hR : ∀ m, s.sh.st m = .removed → s.sh.rd m = true
@@ -99,14 +133,38 @@ structure Inv (s : St) : Prop where
         s.sh.st m = .member ∧ s.sh.st x = .member ∧ s.sh.lk m = true ∧ s.sh.lk x = true ∧ (p = s.sh.tail ∨ s.sh.st p = .member) ∧
         s.sh.next p = m ∧ s.sh.next m = x ∧ s.sh.prev m = p ∧ s.sh.prev x = p ∧ p < m ∧ m < x ∧ p ≠ 0 ∧
         ∀ c, s.sh.st c = .member → m < c → x ≤ c
+  -- reference counts: `rc` counts the list's and the handle's reference; a node is freed exactly when both are gone
+  r1 : ∀ m, s.sh.rc m = (if s.sh.lr m = true then 1 else 0) + (if s.sh.hr m = true then 1 else 0)
+  r2 : ∀ m, s.sh.freed m = true → s.sh.lr m = false ∧ s.sh.hr m = false
+  r3 : ∀ m, s.sh.lnk m = true → s.sh.lr m = true
+  r5 : ∀ m, s.sh.st m = .member → s.sh.lr m = true
+  r6 : s.sh.tr = true → s.sh.lr s.sh.tail = true
+  r6q : qop (s.pcs 0) = true → s.sh.tr = true
+  r7 : ∀ m, lrC (s.pcs 0) m = true → s.sh.lr m = true ∧ m ≠ s.sh.tail ∧ s.sh.st m ≠ .member ∧ s.sh.lnk m = false
+  hTs : s.sh.st s.sh.tail = .popped ∨ s.sh.st s.sh.tail = .none
+  r8a : ∀ m, s.sh.hnd m = true → s.sh.hr m = true ∧ s.sh.hin m = false
+  r8b : ∀ m, s.sh.hin m = true → s.sh.hr m = true
+  r8c : ∀ m, 2 ≤ m → m < s.sh.nid → s.sh.rd m = false → s.sh.hr m = true ∧ s.sh.hin m = false
+  r8d : ∀ t m, holds (s.pcs t) = some m → s.sh.hin m = true ∧ s.sh.hby m = t
+  r9 : ∀ m, 1 ≤ m → m < s.sh.nid → s.sh.lr m = false → s.sh.hr m = false → s.sh.freed m = true
+  r10 : andDone (s.pcs 0) = true → s.sh.lnk s.sh.tail = false
+  dT : s.sh.tr = false → s.sh.dead = true
+  dK : inDrop (s.pcs 0) = true → s.sh.dead = true
+  -- ownership: once the drop of the queue has begun nobody is inside a push (and nobody can start one)
+  dD : ∀ u, s.sh.dead = true → isPushAny (s.pcs u) = false
+  hI : ∀ u, s.n ≤ u → s.pcs u = .idle
+  -- the drop of the queue ends with an empty list, and it stays empty
+  dE1 : (s.pcs 0 = .qAnd ∨ s.pcs 0 = .qDec) → s.sh.head = s.sh.tail
+  dE : s.sh.tr = false → s.sh.head = s.sh.tail
 
 theorem inv_init (n : Nat) : Inv (init n) := by
-  constructor <;> simp [init, isCons, holds, midA, midB, takes, unl] <;> omega
+  constructor <;> simp [init, isCons, holds, midA, midB, takes, unl, lrC, andDone, qop, inDrop, isPushAny] <;> (try omega) <;>
+    (intro m <;> by_cases h : m = 1 <;> simp [h] <;> omega)
 
 set_option hygiene false in
 macro "destruct_inv" : tactic => `(tactic|
-  (obtain ⟨hN, hT, hV, hM, hP, hR, hS, hC, vM, vN, vT, vO, lM, lN, lU, pT, hH, hK, rL, pA, pB, pC, sP, tS, d1, d2, d3, d4, cA, cI, cB, cC, rC, rD, rA, rB⟩ := h
-   simp only at hN hT hV hM hP hR hS hC vM vN vT vO lM lN lU pT hH hK rL pA pB pC sP tS d1 d2 d3 d4 cA cI cB cC rC rD rA rB))
+  (obtain ⟨hF, hN, hT, hV, hW, hM, hP, hR, hS, hC, vM, vN, vT, vO, lM, lN, lU, pT, hH, hK, rL, pA, pB, pC, sP, tS, d1, d2, d3, d4, cA, cI, cB, cC, rC, rD, rA, rB, r1, r2, r3, r5, r6, r6q, r7, hTs, r8a, r8b, r8c, r8d, r9, r10, dT, dK, dD, hI, dE1, dE⟩ := h
+   simp only at hF hN hT hV hW hM hP hR hS hC vM vN vT vO lM lN lU pT hH hK rL pA pB pC sP tS d1 d2 d3 d4 cA cI cB cC rC rD rA rB r1 r2 r3 r5 r6 r6q r7 hTs r8a r8b r8c r8d r9 r10 dT dK dD hI dE1 dE))
 
 /-- the acting thread is the consumer -/
 theorem cons_is_zero {pcs : Tid → Pc} {t : Tid} {pc : Pc} (hC : ∀ t, t ≠ 0 → isCons (pcs t) = false) (hpc : pcs t = pc)
@@ -126,6 +184,35 @@ theorem nc_takes (pc : Pc) (b : Nid) (h : isCons pc = false) : takes pc b = fals
   cases pc <;> simp_all [isCons, takes]
 theorem nc_unl (pc : Pc) (b : Nid) (h : isCons pc = false) : unl pc b = false := by
   cases pc <;> simp_all [isCons, unl]
+
+theorem nc_lrC (pc : Pc) (b : Nid) (h : isCons pc = false) : lrC pc b = false := by
+  cases pc <;> simp_all [isCons, lrC]
+theorem nc_qop (pc : Pc) (h : isCons pc = false) : qop pc = false := by
+  cases pc <;> simp_all [isCons, qop]
+theorem upd0_qop (pcs : Tid → Pc) (t : Tid) (pc' : Pc) (h : isCons (pcs t) = false) (h' : isCons pc' = false) :
+    qop (upd pcs t pc' 0) = qop (pcs 0) := by
+  by_cases h0 : 0 = t
+  · subst h0; simp [upd, nc_qop _ h, nc_qop _ h']
+  · simp [upd, h0]
+theorem nc_inDrop (pc : Pc) (h : isCons pc = false) : inDrop pc = false := by
+  cases pc <;> simp_all [isCons, inDrop]
+theorem upd0_inDrop (pcs : Tid → Pc) (t : Tid) (pc' : Pc) (h : isCons (pcs t) = false) (h' : isCons pc' = false) :
+    inDrop (upd pcs t pc' 0) = inDrop (pcs 0) := by
+  by_cases h0 : 0 = t
+  · subst h0; simp [upd, nc_inDrop _ h, nc_inDrop _ h']
+  · simp [upd, h0]
+theorem nc_andDone (pc : Pc) (h : isCons pc = false) : andDone pc = false := by
+  cases pc <;> simp_all [isCons, andDone]
+theorem upd0_lrC (pcs : Tid → Pc) (t : Tid) (pc' : Pc) (b : Nid) (h : isCons (pcs t) = false) (h' : isCons pc' = false) :
+    lrC (upd pcs t pc' 0) b = lrC (pcs 0) b := by
+  by_cases h0 : 0 = t
+  · subst h0; simp [upd, nc_lrC _ _ h, nc_lrC _ _ h']
+  · simp [upd, h0]
+theorem upd0_andDone (pcs : Tid → Pc) (t : Tid) (pc' : Pc) (h : isCons (pcs t) = false) (h' : isCons pc' = false) :
+    andDone (upd pcs t pc' 0) = andDone (pcs 0) := by
+  by_cases h0 : 0 = t
+  · subst h0; simp [upd, nc_andDone _ h, nc_andDone _ h']
+  · simp [upd, h0]
 
 theorem upd0_midA (pcs : Tid → Pc) (t : Tid) (pc' : Pc) (tl a : Nid) (h : isCons (pcs t) = false) (h' : isCons pc' = false) :
     midA (upd pcs t pc' 0) tl a = midA (pcs 0) tl a := by
@@ -226,6 +313,8 @@ theorem isConsT_rNext (x : Nid) : isCons (.rNext x) = true := by simp [isCons]
 theorem isConsT_rAnd (m p x : Nid) : isCons (.rAnd m p x) = true := by simp [isCons]
 theorem isConsT_rSetPrev (m p x : Nid) : isCons (.rSetPrev m p x) = true := by simp [isCons]
 theorem isConsT_rSetNext (m p x : Nid) : isCons (.rSetNext m p x) = true := by simp [isCons]
+theorem isConsT_qAnd : isCons .qAnd = true := by simp [isCons]
+theorem isConsT_qDec : isCons .qDec = true := by simp [isCons]
 
 theorem hC_upd (pcs : Tid → Pc) (t : Tid) (pc' : Pc) (hC : ∀ t, t ≠ 0 → isCons (pcs t) = false)
     (h' : t ≠ 0 → isCons pc' = false) : ∀ u, u ≠ 0 → isCons (upd pcs t pc' u) = false := by
@@ -244,13 +333,13 @@ theorem hK_upd (pcs : Tid → Pc) (t : Tid) (pc' : Pc) (rd rd' : Nid → Bool) (
 
 /-- normal form of the consumer-pc predicates on a concrete program point -/
 macro "pcnorm" " at " h:ident : tactic => `(tactic|
-  (try simp only [upd_same, midA, midB, takes, unl, holds, isCons, reduceCtorEq, false_or, or_false, false_implies, implies_true, forall_const,
+  (try simp only [upd_same, midA, midB, takes, unl, lrC, andDone, qop, inDrop, isPushAny, holds, isCons, reduceCtorEq, false_or, or_false, false_implies, implies_true, forall_const,
      and_imp, forall_eq', forall_eq, forall_apply_eq_imp_iff, forall_eq_apply_imp_iff, exists_eq_left,
      Pc.cPrev.injEq, Pc.cTail.injEq, Pc.cTake.injEq, Pc.iAnd.injEq, Pc.rPrev.injEq, Pc.rNext.injEq, Pc.rAnd.injEq, Pc.rSetPrev.injEq,
      Pc.rSetNext.injEq, Pc.pPrev.injEq, Pc.pLink.injEq, Pc.pTail.injEq, Option.some.injEq, decide_eq_true_eq, decide_eq_false_iff_not,
      Bool.false_eq_true, Bool.true_eq_false, decide_eq_decide, ne_eq] at $h:ident))
 macro "pcnorm" : tactic => `(tactic|
-  (try simp only [upd_same, midA, midB, takes, unl, holds, isCons, reduceCtorEq, false_or, or_false, false_implies, implies_true, forall_const,
+  (try simp only [upd_same, midA, midB, takes, unl, lrC, andDone, qop, inDrop, isPushAny, holds, isCons, reduceCtorEq, false_or, or_false, false_implies, implies_true, forall_const,
      and_imp, forall_eq', forall_eq, forall_apply_eq_imp_iff, forall_eq_apply_imp_iff, exists_eq_left,
      Pc.cPrev.injEq, Pc.cTail.injEq, Pc.cTake.injEq, Pc.iAnd.injEq, Pc.rPrev.injEq, Pc.rNext.injEq, Pc.rAnd.injEq, Pc.rSetPrev.injEq,
      Pc.rSetNext.injEq, Pc.pPrev.injEq, Pc.pLink.injEq, Pc.pTail.injEq, Option.some.injEq, decide_eq_true_eq, decide_eq_false_iff_not,
@@ -268,6 +357,31 @@ macro "bringC" xs:ident* : tactic => do
   let hs ← xs.mapM fun (x : Ident) => `(tactic| (have $x:ident := $(mkIdent (`MayVerif.TimerList.Inv ++ x.getId)) $(mkIdent `h); (try dsimp only at $x:ident); (try rw [$(mkIdent `hpc):ident] at $x:ident); pcnorm at $x:ident))
   `(tactic| ($[$hs]*))
 
+theorem dD_upd (pcs : Tid → Pc) (t : Tid) (pc' : Pc) (d d' : Bool) (h : ∀ u, d = true → isPushAny (pcs u) = false)
+    (hd : d' = true → d = true) (h' : d' = true → isPushAny pc' = false) : ∀ u, d' = true → isPushAny (upd pcs t pc' u) = false := by
+  intro u hu
+  by_cases hut : u = t
+  · subst hut; simpa [upd] using h' hu
+  · simpa [upd, hut] using h u (hd hu)
+
+theorem hI_upd (nn : Nat) (pcs : Tid → Pc) (t : Tid) (pc' : Pc) (hlt : t < nn) (h : ∀ u, nn ≤ u → pcs u = .idle) :
+    ∀ u, nn ≤ u → upd pcs t pc' u = .idle := by
+  intro u hu
+  have : u ≠ t := by omega
+  simpa [upd, this] using h u hu
+
+theorem r8d_upd (pcs : Tid → Pc) (t : Tid) (pc' : Pc) (hin hin' : Nid → Bool) (hby hby' : Nid → Tid)
+    (h : ∀ u m, holds (pcs u) = some m → hin m = true ∧ hby m = u)
+    (hframe : ∀ u m, u ≠ t → hin m = true → hby m = u → hin' m = true ∧ hby' m = u)
+    (h' : ∀ m, holds pc' = some m → hin' m = true ∧ hby' m = t) :
+    ∀ u m, holds (upd pcs t pc' u) = some m → hin' m = true ∧ hby' m = u := by
+  intro u m hu
+  by_cases hut : u = t
+  · subst hut; simp only [upd_same] at hu; exact h' m hu
+  · simp only [upd, hut, if_false] at hu
+    obtain ⟨h1, h2⟩ := h u m hu
+    exact hframe u m hut h1 h2
+
 set_option hygiene false in
 macro "split_hts" : tactic => `(tactic|
   (simp only [tstep, decRef] at hts <;> (repeat' split at hts) <;> (try contradiction) <;>
@@ -275,9 +389,9 @@ macro "split_hts" : tactic => `(tactic|
 
 -- goal-side normal form after a non-consumer step (`hnc : isCons (pcs t) = false`)
 set_option hygiene false in
-macro "pnorm" : tactic => `(tactic| (try simp only [upd0_midA, upd0_midB, upd0_takes, upd0_unl, upd0_cpc, hnc, isCons_idle, isCons_ret, isCons_pSwap,
+macro "pnorm" : tactic => `(tactic| (try simp only [upd0_midA, upd0_midB, upd0_takes, upd0_unl, upd0_lrC, upd0_andDone, upd0_qop, upd0_inDrop, upd0_cpc, hnc, isCons_idle, isCons_ret, isCons_pSwap,
   isCons_pPrev, isCons_pLink, isCons_pTail, isCons_lRefs, isCons_dDec, isConsT_cPrev, isConsT_iAnd, isConsT_cTail, isConsT_cTake, isConsT_rPrev,
-  isConsT_rNext, isConsT_rAnd, isConsT_rSetPrev, isConsT_rSetNext]))
+  isConsT_rNext, isConsT_rAnd, isConsT_rSetPrev, isConsT_rSetNext, isConsT_qAnd, isConsT_qDec]))
 
 -- goal-side normal form of the push-indexed clauses after a step of actor 0 outside a push (`hcc : isPush (pcs 0) = false`)
 set_option hygiene false in
